@@ -29,13 +29,21 @@ def suffix_like(rng):
     return rng.choice(SUFFIX_LIKE) if rng.random() < 0.12 else ''
 
 
+# suffix words INSIDE a name (the text format strips / appends them at the END of counter and info names only)
+INNER_WORDS = ['_total', '_info', '_created', '_count', '_sum', '_bucket']
+
+
+def inner_word(rng):
+    return rng.choice(INNER_WORDS) + rng.choice(['_x', '', '_total']) if rng.random() < 0.1 else ''
+
+
 def legacy_name(rng, stem):
-    return stem + ''.join(rng.choice(LEGACY + '019') for _ in range(rng.randrange(0, 3))) + suffix_like(rng)
+    return stem + inner_word(rng) + ''.join(rng.choice(LEGACY + '019') for _ in range(rng.randrange(0, 3))) + suffix_like(rng)
 
 
 def utf8_name(rng, stem):
     """A metric/label name in 'arbitrary UTF-8': stem keeps names distinct, the rest is adversarial."""
-    return stem + adv_string(rng, 4, empty_ok=False) + suffix_like(rng)
+    return stem + inner_word(rng) + adv_string(rng, 4, empty_ok=False) + suffix_like(rng)
 
 
 def label_names(rng, k, utf8):
@@ -98,7 +106,7 @@ def gen_helper_family(rng, stem, utf8, om, exemplars=False, units=False, ineligi
     lnames = label_names(rng, k, utf8)
     unit = ''
     if units and kind not in ('info', 'stateset') and rng.random() < 0.4:
-        unit = rng.choice(['seconds', 'bytes', 'x'])
+        unit = rng.choice(['seconds', 'bytes', 'x', 'total', 'info', 'count', 'created'])
         if utf8 and rng.random() < 0.35:
             unit = adv_string(rng, 4, empty_ok=False)     # any string the constructors accept in UTF-8 mode
     nchild = rng.randrange(1, 3) if k else 1
